@@ -66,3 +66,25 @@ claim('C16',
       "coverage from the evaluated if/elif chains.",
       "Trusted: the interpreter's model of Python semantics for tuple indexing, unbound locals, attribute lookup, broadcasting errors.",
       "partial evaluation of the AST per configuration (exception outcome analysis)", "DESIGN.md 5 C16")
+
+claim('C09',
+      "Static: the dirty-flag/cache protocol is decided as an inductive invariant from rules over every writer, every reader and the only clearer: "
+      "TrackedArray's methods are partially evaluated over all flag/base configurations; every BoundaryFace mutator and every writer of "
+      "CellVariable._value is shown to raise a flag (interpretation + syntactic enumeration of all stores); solvePDE is interpreted under every "
+      "valuation of the two flags with a deliberately stale cache and must hand the solver the rows of the current coefficients; apply_BCs must "
+      "recompute ghosts and cache before clearing; only apply_BCs/__init__ may clear; the shared-BC-object scenario is interpreted symbolically.",
+      "Trusted: numpy base semantics of views; the interpreter's TrackedArray model (justified by rule P3 on the real class).",
+      "typestate / who-may-write analysis: partial evaluation of the protocol functions over all flag valuations + AST enumeration of writers", "DESIGN.md 5 C09")
+claim('C14',
+      "Static: all 18 operator methods of CellVariable and of FaceVariable, funceval/celleval/faceeval for arities 1..8 and copy() are interpreted "
+      "symbolically for variable/scalar/array operands; values are compared with the operator the Python data model prescribes (reflected ones "
+      "swapped), both branches must agree, no operand storage may be written (effect events), and the object graphs of result and operands must "
+      "be disjoint with the BCs a deep copy of self's and ghosts consistent with them.",
+      "Trusted: the interpreter's aliasing model (slices alias; arithmetic, np.copy, deepcopy are fresh).",
+      "abstract interpretation of cell.py/face.py operator methods + object-graph alias analysis + effect events", "DESIGN.md 5 C14")
+claim('C15',
+      "Static effect analysis: 22 public builders x 9 classes (both upwind variants) are interpreted with all input storage read-only; every store into "
+      "input storage is an event, reachability of input storage from returned objects decides aliasing; solvePDE/solveMatrixPDE/solveExplicitPDE "
+      "likewise; module scan for randomness, clocks and mutable module state.",
+      "Trusted: the interpreter's view/copy rules for numpy; csr_array copies its inputs.",
+      "effect and alias analysis by abstract interpretation (write events on read-only storage, object-graph reachability) + AST scan", "DESIGN.md 5 C15")
